@@ -132,7 +132,7 @@ theorem getInboxes_ok {H : List Iri} (F : TFacts) (ts : List J) : LockOK re aw a
   exact Lk.bind (getInbox_ok F t) fun _ => Lk.pure' _
 
 theorem dereferenceForResolvingInboxes_ok (F : TFacts) (u : Iri) : LockOK re aw ad [] (dereferenceForResolvingInboxes F u) := by
-  unfold dereferenceForResolvingInboxes
+  unfold dereferenceForResolvingInboxes derefTail
   lk_auto
 
 theorem resolveActors_ok (F : TFacts) (maxDepth : Int) (fuel depth : Nat) (r : List Iri) :
